@@ -10,13 +10,13 @@ TBU = TB + "; CPython 3.11 unicodedata (Unicode 14) as the normalisation oracle"
 
 # id -> (category, technique, text, design_ref, level_note, engine)
 CHECKS = {
- "C01": ("exploration", "bounded-exhaustive input-shape enumeration on the real encoder vs an independent bit-array reference",
+ "C01": ("exploration", "bounded-exhaustive input-shape enumeration on the real encoder vs an independent bit-array reference; cold-start child processes (first library call an encoding / a validation in each language, then all languages)",
          "Every member of the entropy scopes (every (size, word position, 11-bit index) cell, every first hash byte at every checksum width, all 1^a0^b1^c / 0^a1^b0^c runs, Hamming balls around 0s/1s, 32-bit block alphabet) x 10 languages is encoded by the real NewMnemonicByEntropy and compared for string equality with a reference encoder that shares neither algorithm nor word data with the implementation. The encoder has no value-dependent branch, so shape coverage (measured as full coverage matrices) is the right bound; totality over 2^256 values is not claimed.",
          "DESIGN.md 4.C01", TB, "E-IN"),
- "C02": ("exploration", "bounded-exhaustive enumeration: generate->validate round trip and reference-valid sentences on the real validator",
+ "C02": ("exploration", "bounded-exhaustive enumeration: generate->validate round trip and reference-valid sentences on the real validator; cold-start child processes (first library call an encoding / a validation in each language, then all languages)",
          "For every entropy of the scopes x 10 languages the implementation's own mnemonic and the reference sentence (U+0020 and U+3000 joined) must be accepted by CheckMnemonic and IsMnemonicValid; scopes contain every number of leading zero bytes/bits and every list word at every position. NewMnemonic output through a scripted source is validated too.",
          "DESIGN.md 4.C02", TB, "E-IN"),
- "C03": ("exploration", "bounded-exhaustive sentence-mutation enumeration (full last-word sweeps, substitutions, transpositions, counts, foreign words, damage, short byte strings) vs reference validator",
+ "C03": ("exploration", "bounded-exhaustive sentence-mutation enumeration (full last-word sweeps, substitutions, transpositions, counts, foreign words, damage, short byte strings) vs reference validator; cold-start child processes (first library call an encoding / a validation in each language, then all languages)",
          "One-directional oracle exactly as stated: whenever the implementation accepts, the reference validator must accept; accepted last-word sets must have exactly 2^(11-n/3) members for every explored prefix; IsMnemonicValid == (CheckMnemonic == nil) on every input.",
          "DESIGN.md 4.C03", TB, "E-IN"),
  "C05": ("exploration", "bounded-exhaustive enumeration with an independent decoder; all single-bit flips of base entropies",
@@ -43,25 +43,25 @@ CHECKS.update({
  "C07": ("model_checking", "explicit-state BFS over call histories (fresh process per transition, fixpoint over package-state fingerprints) with the invariant source == crypto/rand.Reader",
          "In every reachable package state of the no-swap alphabet, and at every process start, the source variable holds crypto/rand.Reader itself. Byte-exact dependence of the output on the source is C06's oracle. Statistics of the OS generator are out of scope.",
          "DESIGN.md 4.C07", TB + "; verif hook VerifSwapRandSource; generated state accessor (overlay, not committed)", "E-HIST"),
- "C08": ("exploration", "complete enumeration of the finite domain 10 languages x 2048 indices through the API, digests, well-formedness, validation round trip, source text",
+ "C08": ("exploration", "complete enumeration of the finite domain 10 languages x 2048 indices through the API, digests, well-formedness, validation round trip, source text; re-enumeration after every entry point incl. failing paths was exercised; cold-start child processes (first library call in each language)",
          "Every (language, index) is observed at every word position of every size and compared byte-for-byte with the golden lists; observed lists are re-hashed against pinned digests; each word is mapped back by validation probes; the source text of internal/wordlist is parsed and compared.",
          "DESIGN.md 4.C08", TB, "E-IN"),
- "C10": ("exploration", "bounded-exhaustive enumeration of NFKD-equal spelling pairs (all list words x all single-code-point respellings / normal forms / separators) on the real validator",
+ "C10": ("exploration", "bounded-exhaustive enumeration of NFKD-equal spelling pairs (all list words x all single-code-point respellings / normal forms / separators) on the real validator; cold-start child processes (first library call an encoding / a validation in each language, then all languages)",
          "For every pair of strings that CPython says have the same NFKD form the real CheckMnemonic must return the same verdict class, and valid sentences must be accepted in every spelling.",
          "DESIGN.md 4.C10", TBU, "E-IN"),
  "C11": ("exploration", "bounded-exhaustive enumeration of NFKD-equal (mnemonic, passphrase) pairs on the real MnemonicToSeed, differential + reference PBKDF2",
          "Cover sentences containing every list word of every language in NFC/NFD/NFKC/full-width and with U+3000 separators, passphrase forms, mark runs: equal seeds within each pair and equal to the reference. The Stream-Safe deviation is a recorded known finding keyed by exact pairs.",
          "DESIGN.md 4.C11", TBU, "E-IN"),
  "C13": ("model_checking", "explicit-state BFS over API call histories to a fixpoint; each transition executed in a fresh process; differential oracle against the fresh-state outcome",
-         "All reachable package states (fingerprint of every package-level variable) x the operation alphabet; every executed call must return what it returns in a fresh process, caller buffers and earlier results must stay intact; plus the complete ordered first-use matrix of language pairs.",
+         "All reachable package states (fingerprint of every package-level variable) x the operation alphabet; every executed call must return what it returns in a fresh process, caller buffers and earlier results must stay intact; plus the complete ordered first-use matrix of language pairs, long repetitions, and fill histories over many distinct arguments with re-use at every power-of-two distance.",
          "DESIGN.md 4.C13", TB + "; generated state accessor (overlay, not committed); dependencies assumed observationally stateless", "E-HIST"),
- "C14": ("exploration", "bounded-exhaustive enumeration of hostile arguments (all short byte strings incl. ill-formed UTF-8, all 2-byte tokens, Language ranges and int boundaries, size ladders, all lengths/counts) with panic recovery and a hang watchdog",
+ "C14": ("exploration", "bounded-exhaustive enumeration of hostile arguments (all short byte strings incl. ill-formed UTF-8, all 2-byte tokens, Language ranges and int boundaries, size ladders, all lengths/counts, and every case of the sentence mutation scopes of C03/C15) with panic recovery and a hang watchdog",
          "Every call must return; panics are recovered per call and reported; a 180 s watchdog reports hangs.",
          "DESIGN.md 4.C14", TB, "E-IN"),
 })
 
 CHECKS.update({
- "C17": ("exploration", "exhaustive enumeration of small upstream word files (all files of <=3/4 lines over a line alphabet, trailing-LF variants, size ladder, canonical lists) fed to the real generator binary over loopback",
+ "C17": ("exploration", "exhaustive enumeration of small upstream word files (all files of <=3/4 lines over a line alphabet, trailing-LF variants, size ladder, canonical lists) fed to the real generator binary over loopback; regeneration histories (all ordered pairs of six input shapes as two runs in one directory); enumerated environment answers (delivery in pieces, connection dropped, transfer cut at enumerated offsets, blocked output path) with the oracle exit 0 => ten faithful files",
          "The real update-wordlist binary is executed for every enumerated input file; each generated file must parse, declare the promised variable and contain exactly the non-empty input lines; the canonical run must reproduce the committed lists and compile.",
          "DESIGN.md 4.C17", TB + "; verif hook in update-wordlist (transport-level redirect); loopback networking", "E-GEN"),
 })
